@@ -18,13 +18,16 @@ def run(ctx):
     vh = vlib.build_harness(ctx)
     cases = fc.gen_cases(ctx, 'OciFilterGen_c13_quick.cfg' if quick else 'OciFilterGen_c13_thorough.cfg')
     lists = [c for c in cases if all(o['op'] == 'ListRepos' for o in c['ops'])]
-    names = [c for c in cases if c not in lists]
+    flt = [c for c in cases if c.get('faults')]
+    names = [c for c in cases if c not in lists and c not in flt]
     td = ctx.sub('traces')
     traces = []
-    for nm, cs in (('names', names), ('lists', lists)):
+    # the refusing-backend cases run over a backend that also has repositories OUTSIDE the prefix
+    # named like the view-relative names
+    for nm, cs, repos in (('names', names, REPOS), ('lists', lists, REPOS), ('faults', flt, REPOS + ',a,b')):
         cp = fc.write_cases(ctx, cs, 'c13-%s.jsonl' % nm)
         t = os.path.join(td, 'tlc-%s.ndjson' % nm)
-        fc.run_filter(ctx, vh, t, cases=cp, repos=REPOS, prefix='foo', kinds='sub')
+        fc.run_filter(ctx, vh, t, cases=cp, repos=repos, prefix='foo', kinds='sub')
         traces.append(t)
     nrand = 48 if quick else 2000
     prefixes = PREFIXES_Q if quick else PREFIXES_T
@@ -48,7 +51,7 @@ def run(ctx):
                           dict(hostile=fc.sample_events(traces[0], 2, lambda e: '..' in e.get('r', '') and e['backend'])),
                           dict(listing=fc.sample_events(traces[-1], 2, lambda e: e['op'] == 'ListRepos' and e.get('start')))]
     vlib.judge_traces(ctx, 'OciFilterTrace', 'OciFilterTrace.cfg', traces, shard_lines=1500 if quick else 6000, label='Sub vs OciFilter')
-    need = ['sub:concurrent-calls', 'sub:ListRepos', 'sub:MountBlob', 'sub:Write', 'sub:Commit', 'sub:GetBlob', 'sub:Referrers']
+    need = ['sub:backend-refused', 'sub:concurrent-calls', 'sub:ListRepos', 'sub:MountBlob', 'sub:Write', 'sub:Commit', 'sub:GetBlob', 'sub:Referrers']
     missing = [k for k in need if not ctx.cov['per_op'].get(k)]
     if missing:
         raise vlib.Machinery('the batch never exercised: %s' % ', '.join(missing))
